@@ -139,7 +139,7 @@ impl Report {
             start: Instant::now(),
             counters: BTreeMap::new(),
             distinct: HashSet::new(),
-            distinct_cap: 300_000,
+            distinct_cap: 100_000,
             distinct_capped: false,
             signatures: HashSet::new(),
             samples: vec![],
